@@ -13,7 +13,15 @@ func vLenMenu() []int {
 	if vTier() == 0 {
 		return []int{0, 3, 12}
 	}
-	return []int{0, 1, 2, 3, 5, 8, 12, 16, 24}
+	return []int{0, 1, 2, 3, 4, 5, 6, 7, 8, 10, 12, 14, 16}
+}
+
+// the decoders that are not protocol bodies are few: longer buffers are affordable
+func vLenMenuOther() []int {
+	if vTier() == 0 {
+		return []int{0, 3, 12}
+	}
+	return []int{0, 1, 2, 3, 4, 5, 6, 7, 8, 10, 12, 14, 16, 20, 24}
 }
 
 // C10-A: every response type and version on an arbitrary buffer of length L: no panic, no
@@ -43,7 +51,7 @@ func verifHarness_C10_responses() {
 // records union, group member metadata/assignment and sticky user data written by other members.
 func verifHarness_C10_otherDecoders() {
 	vConfig("hang", 1)
-	menu := vLenMenu()
+	menu := vLenMenuOther()
 	L := menu[vChoose("len", len(menu))]
 	buf := vBytes("buf", L)
 	vAllocLimit(vMax(L, 16))
@@ -89,7 +97,7 @@ func verifHarness_C10_recordBatchMutation() {
 	// subsumes every narrower one at the same position
 	w := 4
 	if vTier() > 0 {
-		w = 8
+		w = 6
 	}
 	pos := vChoose("pos", len(raw))
 	for i := 0; i < w && pos+i < len(raw); i++ {
@@ -249,7 +257,7 @@ func verifHarness_C10_fetchBlockRecords() {
 	ver := []int16{0, 4, 5, 11}[vChoose("blockVersion", 4)]
 	n := []int{17, 26, 34}[vChoose("recordsLen", 3)]
 	if vTier() > 0 {
-		n = []int{17, 26, 34, 48, 61}[vChoose("recordsLenT", 5)]
+		n = []int{17, 22, 26, 30, 34, 40, 48, 56}[vChoose("recordsLenT", 8)]
 	}
 	raw := []byte{0, 0, 0, 0, 0, 0, 0, 0, 0, 50} // no error, high-water mark
 	if ver >= 4 {
